@@ -287,12 +287,12 @@ range_type!(ck_r_char, char, ['\0', 'a', '\u{10ffff}'], eq_range_char, eq_rangei
 const RANGES: [(&str, fn(&Case) -> Result<(), String>); 7] =
     [("Range<u8>", ck_r_u8), ("Range<u16>", ck_r_u16), ("Range<u32>", ck_r_u32), ("Range<u64>", ck_r_u64), ("Range<u128>", ck_r_u128), ("Range<usize>", ck_r_usize), ("Range<char>", ck_r_char)];
 
-const STR_ALPHA: [&str; 3] = ["a", "b", "é"];
+const STR_ALPHA: [&str; 4] = ["a", "b", "é", "\0"];
 fn mk_str(ix: &[usize]) -> String {
     ix.iter().map(|&i| STR_ALPHA[i]).collect()
 }
 /// table of short strings used as *elements* of &[&str] / &[&[u8]]
-const ELEMS: [&str; 4] = ["", "a", "ab", "b"];
+const ELEMS: [&str; 5] = ["", "a", "ab", "b", "a\0"];
 
 fn ck_str(c: &Case) -> Result<(), String> {
     let (sa, sb) = (mk_str(&c.a), mk_str(&c.b));
@@ -550,13 +550,13 @@ fn explore(ctx: &mut Ctx) {
         }
     }
     ctx.exhaustive_part("12 NonZero types (5 values, all pairs x Option combos), Range/RangeInclusive of 7 types (all 9x9 bound pairs), Ordering/PhantomData/PhantomPinned");
-    let strs = kvh::gen::seqs(&[0usize, 1, 2], ctx.by_tier(3, 4));
+    let strs = kvh::gen::seqs(&[0usize, 1, 2, 3], ctx.by_tier(3, 4));
     for a in &strs {
         for b in &strs {
             options(ctx, case("str", "str", a.clone(), b.clone()));
         }
     }
-    let el = kvh::gen::seqs(&[0usize, 1, 2, 3], 3);
+    let el = kvh::gen::seqs(&[0usize, 1, 2, 3, 4], 3);
     for a in &el {
         for b in &el {
             options(ctx, case("&[&str]", "strs", a.clone(), b.clone()));
@@ -566,7 +566,7 @@ fn explore(ctx: &mut Ctx) {
             return;
         }
     }
-    ctx.exhaustive_part("strings of <= 3 chars over {a,b,é} (all pairs; also as bytes); &[&str] and &[&[u8]] of <= 3 elements over {\"\",a,ab,b} (all pairs) x Option combos");
+    ctx.exhaustive_part("strings of <= 3-4 chars over {a,b,é,NUL} (all pairs; also as bytes); &[&str] and &[&[u8]] of <= 3 elements over {\"\",a,ab,b,a+NUL} (all pairs) x Option combos");
     for ty in ["i8", "u8", "char", "str", "strs"] {
         eval(ctx, case(ty, "laws", vec![3, 3], vec![]));
     }
